@@ -29,7 +29,11 @@ TRUSTED_BASE = [
     "Lean 4.33.0 kernel (axioms allowed: propext, Classical.choice, Quot.sound; no native_decide, no bv_decide, no own axioms)",
     "Rawr/Spec/*.lean as the reading of the rules of chess / Chess960 / X-FEN",
     "tools/extract.py (constants and tables translated from /repo on every run)",
-    "hand-written Rawr/Model/*.lean tied to the Rust code only by the correspondence check of this run",
+    "tools/rust2lean.py, rust2lean_imp.py, rust2lean_search.py (Rust function bodies translated to Lean on every run; the agree_* theorems prove the "
+    "model equal to the translation: bitboard/ray helpers, position, makemove, hashes, validate, attacks, eval, move generator, counter, perft, "
+    "hashtable, score, ordering, qsearch, negamax, root incl. the clock arithmetic)",
+    "hand-written Rawr/Model/*.lean; the parts not reached by the translators (magic look-up, FEN text, UCI loop and move text, style.py) are tied to "
+    "the code only by the correspondence check of this run",
     "harness/src/bin/hx.rs, tools/check machinery, rustc/std semantics",
 ]
 
